@@ -46,6 +46,9 @@ func (fr *Frame) execInstr(st *State, instr ssa.Instruction) {
 		}
 		p := fc.allocObj(st)
 		p.T = x.Type()
+		if !x.Heap && p.Sh != nil {
+			fr.stackIDs = append(fr.stackIDs, p.Sh.Idx)
+		}
 		if a, ok := isArray(et); ok && isAggregate(a.Elem()) {
 			fc.bulkZero(st, a.Elem(), p)
 		} else {
@@ -542,7 +545,9 @@ func (fc *FnCtx) makeIface(v Term, from, to types.Type) Term {
 	if _, ok := types.Unalias(from).(*types.TypeParam); ok {
 		// boxing a value of type-parameter type: dynamic type unknown
 		box, _ := fc.boxFuncs(v.Sort)
-		return mk(fmt.Sprintf("(mk_iface (tp_typeid_%s) (%s %s))", identOf(shortTypeString(from)), box, v.S), SIface, to)
+		tid := "tp_typeid_" + identOf(shortTypeString(from))
+		fc.declareOnce(tid, fmt.Sprintf("(declare-fun %s () Int)", tid))
+		return mk(fmt.Sprintf("(mk_iface %s (%s %s))", tid, box, v.S), SIface, to)
 	}
 	box, _ := fc.boxFuncs(v.Sort)
 	return mk(fmt.Sprintf("(mk_iface %d (%s %s))", fc.typeID(from), box, v.S), SIface, to)
@@ -573,7 +578,7 @@ func (fr *Frame) typeAssert(st *State, x *ssa.TypeAssert) {
 	if _, isTP := types.Unalias(at).(*types.TypeParam); isTP {
 		tid := "tp_typeid_" + identOf(shortTypeString(at))
 		fc.declareOnce(tid, fmt.Sprintf("(declare-fun %s () Int)", tid))
-		okc = mk(fmt.Sprintf("(and ((_ is mk_iface) %s) (= (i_typ %s) (%s)))", v.S, v.S, tid), SBool, nil)
+		okc = mk(fmt.Sprintf("(and ((_ is mk_iface) %s) (= (i_typ %s) %s))", v.S, v.S, tid), SBool, nil)
 	} else {
 		okc = mk(fmt.Sprintf("(and ((_ is mk_iface) %s) (= (i_typ %s) %d))", v.S, v.S, fc.typeID(at)), SBool, nil)
 	}
